@@ -31,12 +31,33 @@ def sources_at_rev(rev):
     return out
 
 
+_G = {}
+
+
+def _one_control(i):
+    mod, pm, tier, cs = _G["mod"], _G["pm"], _G["tier"], _G["cs"]
+    return _run_control(mod, pm, tier, cs[i])
+
+
 def run_controls(mod, pm, tier):
-    res = []
     ctl = getattr(mod, "controls", None)
     if ctl is None:
-        return res
-    for c in ctl(pm, tier):
+        return []
+    cs = ctl(pm, tier)
+    if len(cs) > 2 and os.environ.get("GCVERIF_SERIAL") != "1":
+        import multiprocessing as mp
+        _G.update(mod=mod, pm=pm, tier=tier, cs=cs)
+        try:
+            with mp.get_context("fork").Pool(min(len(cs), os.cpu_count() or 4)) as pool:
+                return pool.map(_one_control, range(len(cs)))
+        except Exception:
+            pass
+    return [_run_control(mod, pm, tier, c) for c in cs]
+
+
+def _run_control(mod, pm, tier, c):
+    res = []
+    for c in [c]:
         try:
             changes = c["apply"](pm)
         except pmmod.AnalysisError as e:
@@ -59,7 +80,7 @@ def run_controls(mod, pm, tier):
         except pmmod.AnalysisError as e:
             status, note = ("fired", f"analysis refuses the mutant: {e}") if c.get("error_ok") else ("missed", f"analysis error on mutant: {e}")
         res.append({"name": c["name"], "rule": c["rule"], "status": status, "note": note[:300]})
-    return res
+    return res[0]
 
 
 def main():
